@@ -17,14 +17,14 @@ pub fn prop() -> Prop {
 
 fn spec() -> Spec {
     Spec {
-        kinds: vec![Kind { name: "ik_complete", quick: 150_000, thorough: 8_000_000, serial: false }],
+        kinds: vec![Kind { name: "ik_complete", quick: 800_000, thorough: 20_000_000, serial: false }],
         rule: "each case = generated non-degenerate 6-DOF robot (industrial, bundled, zero-heavy, negative lengths; 64 sign patterns; offsets) x joint vector q (uniform or placed close to the singularity margins); inverse(FK_ref(q)) must contain q mod 2pi, the wrist-flipped twin of every answer, no duplicates, and re-solving the pose of every answer must give the same set; cases with a singularity measure below the margin are inconclusive(near-singular); non-trivial = in-domain case with >= 1 answer; distinct = hash(robot, q)",
         assumptions: vec![
             "domain margins: |sin t5|, |sin(t3+psi3)| and wrist-centre distance from axis 1 / reach all >= 1e-3 (refmodel measures)",
             "match tolerance modulo 2pi: 1e-6 rad per joint when all margins >= 1e-2, else 1e-4",
             "set-closure differences are only counted when every differing branch is itself >= 1e-2 away from elbow/shoulder/wrist singularities (a borderline-reachable branch may legitimately appear/disappear within the solver's 1e-6 tolerance)",
         ],
-        minimums: vec![("in_domain", 100_000, 5_000_000), ("oracle_evals", 500_000, 20_000_000), ("b_nonzero", 10_000, 500_000)],
+        minimums: vec![("in_domain", 500_000, 12_000_000), ("oracle_evals", 3_000_000, 80_000_000), ("b_nonzero", 100_000, 2_000_000)],
     }
 }
 
